@@ -262,7 +262,9 @@ func cmpCorpus() []CVal {
 			out = append(out, CVal{Kind: "num", Repr: r, Text: n})
 		}
 	}
-	out = append(out, CVal{Kind: "num", Repr: "num", Text: "1e0"}, CVal{Kind: "num", Repr: "num", Text: "10E-1"}, CVal{Kind: "num", Repr: "num", Text: "-0"}, CVal{Kind: "num", Repr: "num", Text: "-0.0"})
+	out = append(out, CVal{Kind: "num", Repr: "num", Text: "1e0"}, CVal{Kind: "num", Repr: "num", Text: "10E-1"}, CVal{Kind: "num", Repr: "num", Text: "-0"}, CVal{Kind: "num", Repr: "num", Text: "-0.0"},
+		// json.Numbers beyond float64: comparable with nothing (unknown), never an error, never true or false
+		CVal{Kind: "num", Repr: "num", Text: "1e400"}, CVal{Kind: "num", Repr: "num", Text: "-1e400"}, CVal{Kind: "num", Repr: "num", Text: "1" + strings.Repeat("0", 320)}, CVal{Kind: "num", Repr: "num", Text: "1e-400"})
 	return out
 }
 
